@@ -116,7 +116,25 @@ func (p *Point) Satisfiable() bool { return len(p.Cands) > 0 }
 
 // ResolveTagValue lets a check resolve placeholders in the value part of a tag before the model
 // interprets it (identity by default).
-var ResolveTagValue = func(s string) string { return s }
+// The default assumes an empty configuration: ${key:default} gives the default, ${key} nothing.
+var ResolveTagValue = func(s string) string {
+	for i := 0; i < 100; i++ {
+		end := strings.Index(s, "}")
+		if end < 0 {
+			return s
+		}
+		start := strings.LastIndex(s[:end], "${")
+		if start < 0 {
+			return s
+		}
+		def := ""
+		if _, d, ok := strings.Cut(s[start+2:end], ":"); ok {
+			def = d
+		}
+		s = s[:start] + def + s[end+1:]
+	}
+	return s
+}
 
 // ParseTag splits a tag in the well-formed grammar the generators emit:
 // value[,name=item item...]* . No brackets, no spaces outside items.
